@@ -24,7 +24,7 @@ import (
 func init() {
 	Registry["C16"] = &Check{
 		Scenarios: c16Scenarios,
-		Rule: "complete grid: hop-by-hop and end-to-end ids from {0,1,2^31,2^32-1}^2 x all 256 command flag bytes x every (application, command) of the embedded dictionaries x result code {0 (none asked), 2001, 5012, 2^32-1} through Message.Answer; a second CER on a connection whose handshake has completed (if it is answered, the answer must mirror it); the state machine's success CEA, each failure CEA (5010, 5017, 5012, and 5012 for a CER that cannot be unmarshalled because the connection's dictionary lacks an AVP the CER struct names) and DWA for the same id grid over an in-memory transport; the same requests arriving on SCTP streams {0,1,5,15} of the in-memory multistream backend (and on a stream-less transport), answered by a handler through Answer().WriteTo (answers of ordinary size and of 65400..200000 octets, around and beyond 64 KiB) and by the state machine: the backend must record the answer on the request's stream, also when the answer to a request is written later, while a request from another stream is being handled (all 16 stream pairs), also when the first 1 or 2 write attempts of that answer fail with a temporary error and are retried (WriteToWithRetry); and two application goroutines answering requests of different streams concurrently (every schedule up to preemption bound 2, thorough 3), on an association attached with NewConn and on one accepted by a Server with ReadTimeout and WriteTimeout set.",
+		Rule: "complete grid: hop-by-hop and end-to-end ids from {0,1,2^31,2^32-1}^2 x all 256 command flag bytes x every (application, command) of the embedded dictionaries x result code {0 (none asked), 2001, 5012, 2^32-1} through Message.Answer; a second CER on a connection whose handshake has completed (if it is answered, the answer must mirror it); the state machine's success CEA, each failure CEA (5010, 5017, 5012, and 5012 for a CER that cannot be unmarshalled because the connection's dictionary lacks an AVP the CER struct names) and DWA for the same id grid over an in-memory transport; the same requests arriving on SCTP streams {0,1,5,15} of the in-memory multistream backend (and on a stream-less transport), answered by a handler through Answer().WriteTo (answers of ordinary size and of 65400..200000 octets, around and beyond 64 KiB; requests with one AVP and requests that consist of their header only) and by the state machine: the backend must record the answer on the request's stream, also when the answer to a request is written later, while a request from another stream is being handled (all 16 stream pairs), also when the first 1 or 2 write attempts of that answer fail with a temporary error and are retried (WriteToWithRetry); and two application goroutines answering requests of different streams concurrently (every schedule up to preemption bound 2, thorough 3), on an association attached with NewConn and on one accepted by a Server with ReadTimeout and WriteTimeout set.",
 		Assume: []string{"single default schedule per exchange", "in-memory SCTP backend (hook diam/sctp_verif.go)"},
 		QuickBudget: 120, ThoroughBudget: 900,
 	}
@@ -385,14 +385,16 @@ func c16Streams(r *SeqResult) {
 					if extra > 0 && (hi > 1 || rc == 0) {
 						continue
 					}
-					c16StreamCase(r, stream, hbh, rc, extra)
+					c16StreamCase(r, stream, hbh, rc, extra, false)
 				}
+				// a request that consists of its header only (no AVP at all)
+				c16StreamCase(r, stream, hbh, rc, 0, true)
 			}
 		}
 	}
 }
 
-func c16StreamCase(r *SeqResult, stream uint16, hbh, rc uint32, extra int) {
+func c16StreamCase(r *SeqResult, stream uint16, hbh, rc uint32, extra int, bare bool) {
 	var be *vnet.SCTP
 	s := vs.Run(nil, false, 5*time.Second, false, func() {
 		be = vnet.NewSCTP("S")
@@ -414,7 +416,11 @@ func c16StreamCase(r *SeqResult, stream uint16, hbh, rc uint32, extra int) {
 		if _, err := diam.NewConn(msc, "peer", mux, dict.Default); err != nil {
 			return
 		}
-		be.Deliver(stream, refcodec.EncodeMessage(refcodec.Header{Version: 1, Flags: 0x80, Code: 258, HbH: hbh, E2E: 9}, []refcodec.Node{ident(264, "c")}))
+		nodes := []refcodec.Node{ident(264, "c")}
+		if bare {
+			nodes = nil
+		}
+		be.Deliver(stream, refcodec.EncodeMessage(refcodec.Header{Version: 1, Flags: 0x80, Code: 258, HbH: hbh, E2E: 9}, nodes))
 		be.PeerEOF()
 	})
 	s.Teardown()
@@ -457,8 +463,8 @@ func c16StreamCase(r *SeqResult, stream uint16, hbh, rc uint32, extra int) {
 		v = fmt.Sprintf("%d answers recorded, expected 2", n)
 	}
 	if v != "" {
-		r.Violation = fmt.Sprintf("handler answer (Answer(%d).WriteTo, %d extra octets) to a request on SCTP stream %d with hop-by-hop %#x: %s", rc, extra, stream, hbh, v)
-		r.Case = map[string]interface{}{"stream": stream, "hbh": hbh, "rc": rc, "extra": extra}
+		r.Violation = fmt.Sprintf("handler answer (Answer(%d).WriteTo, %d extra octets) to a request (header only: %v) on SCTP stream %d with hop-by-hop %#x: %s", rc, extra, bare, stream, hbh, v)
+		r.Case = map[string]interface{}{"stream": stream, "hbh": hbh, "rc": rc, "extra": extra, "bare": bare}
 	}
 }
 
